@@ -262,7 +262,7 @@ Definition mapply (b b' : base) (m : mst) (te : Z * ev) : mst :=
         let bound := if negb (a3 =? 0) then a3 else if 0 <? a4 then a4 else 5 * sec in
         mupd m i (fun x => x <| m_stop_call := Some (t, call, bound, zb a1, io_flag (inst_of b i) && backed b i, gid) |>)
       else m
-  | EApiRet i call res err =>
+  | EApiRet i call res err _ =>
       if (call =? aStop) || (call =? aStopCtx) then mupd m i (fun x => x <| m_stop_call := None |>) else m
   | _ => m
   end.
@@ -292,7 +292,7 @@ Definition mon_C09 (b : base) (m : mst) (te : Z * ev) : list alarm :=
   | EPromote i tok gid => when (io_stopped (inst_of b i)) 902
   | EIssue i op kind inner root gid key val exp => when (io_stopped (inst_of b i) && negb (b_ended b)) 903
   | ECensus n => when (negb (n =? 0)) 904
-  | EApiRet i call res err =>
+  | EApiRet i call res err _ =>
       if ((call =? aStop) || (call =? aStopCtx)) then
         match m_stop_call (mon_of m i) with
         | Some (t0, c0, bound, del, owned, g0) =>
